@@ -865,6 +865,146 @@ fn gen_c09(rng: &mut Rng, pending: &mut Vec<Group>) -> Group {
     }
 }
 
+
+// ----------------------------------------------------------------------------- deterministic grids
+
+fn hot_exact() -> Vec<Val> {
+    let mut v: Vec<Val> = vec![];
+    for i in [0i64, 1, -1, 2, -2, 3, -7, 10] {
+        v.push(Val::Int(BigInt::from(i)));
+    }
+    for (k, d) in [(31u32, -1i64), (31, 0), (32, 0), (32, 1), (53, 0), (62, 0), (63, -1), (63, 0), (64, 0), (127, 0)] {
+        v.push(Val::Int(pow2(k) + d));
+    }
+    for (k, d) in [(31u32, 0i64), (31, -1), (63, 0), (63, -1), (64, 1)] {
+        v.push(Val::Int(-pow2(k) + d));
+    }
+    for (n, d) in [(1i64, 2i64), (-1, 2), (3, 7), (-5, 3), ((1 << 31) - 1, 2), (1, (1 << 31) - 1), (-(1 << 31), 3), (46341, 46340)] {
+        v.push(rat(n, d));
+    }
+    v
+}
+
+/// C08: every ordered pair of the hot values under every binary operation, the unary operations on every hot
+/// value, expt on a base x exponent grid.  `stride`/`off` thin the grid deterministically.
+fn grid_c08(rng: &mut Rng, stride: usize, off: usize) -> Vec<Group> {
+    let hot = hot_exact();
+    let mut out = vec![];
+    let mut n = 0usize;
+    let mut push = |out: &mut Vec<Group>, rng: &mut Rng, op: &str, args: Vec<Val>| {
+        n += 1;
+        if n % stride == off % stride {
+            let plans = plan(rng, &args, 9, 35);
+            out.push(Group { cls: "c08".into(), op: op.into(), args, radix: 0, plans });
+        }
+    };
+    for a in hot.iter() {
+        for b in hot.iter() {
+            for op in ["+", "-", "*", "/"] {
+                push(&mut out, rng, op, vec![a.clone(), b.clone()]);
+            }
+            if as_int(a).is_some() && as_int(b).is_some() {
+                for op in ["quotient", "remainder", "modulo"] {
+                    push(&mut out, rng, op, vec![a.clone(), b.clone()]);
+                }
+            }
+        }
+        for op in ["abs", "floor", "ceiling", "truncate", "numerator", "denominator", "-", "/"] {
+            push(&mut out, rng, op, vec![a.clone()]);
+        }
+    }
+    let bases: Vec<Val> = vec![
+        Val::Int(BigInt::from(0)), Val::Int(BigInt::from(1)), Val::Int(BigInt::from(-1)), Val::Int(BigInt::from(2)),
+        Val::Int(BigInt::from(-2)), Val::Int(BigInt::from(3)), Val::Int(BigInt::from(10)), Val::Int(BigInt::from(-10)),
+        rat(1, 2), rat(-3, 2), Val::Int(pow2(31)), Val::Int(pow2(32) - 1), Val::Int(BigInt::from(46341)),
+    ];
+    for b in bases.iter() {
+        for k in [0i64, 1, 2, 3, 15, 16, 30, 31, 32, 33, 61, 62, 63, 64, 65, 100] {
+            if bits_of(b).max(1) as i64 * k <= 2048 {
+                push(&mut out, rng, "expt", vec![b.clone(), Val::Int(BigInt::from(k))]);
+            }
+        }
+    }
+    out
+}
+
+fn next_up(b: u64) -> u64 {
+    let f = f64::from_bits(b);
+    if f.is_nan() || f == f64::INFINITY { b } else if f == 0.0 { 1 } else if f > 0.0 { b + 1 } else { b - 1 }
+}
+fn next_down(b: u64) -> u64 {
+    let f = f64::from_bits(b);
+    if f.is_nan() || f == f64::NEG_INFINITY { b } else if f == 0.0 { 0x8000000000000001 } else if f > 0.0 { b - 1 } else { b + 1 }
+}
+
+/// C09: exact values at the edges of double precision against the doubles next to them, small integers in every
+/// representation against each other, the sign predicates on every kind of zero and of tiny number.
+fn grid_c09(rng: &mut Rng, stride: usize, off: usize) -> Vec<Group> {
+    let mut out = vec![];
+    let mut n = 0usize;
+    let mut push = |out: &mut Vec<Group>, rng: &mut Rng, op: &str, args: Vec<Val>, cap: usize| {
+        n += 1;
+        if n % stride == off % stride {
+            let plans = plan(rng, &args, cap, 25);
+            out.push(Group { cls: "c09".into(), op: op.into(), args, radix: 0, plans });
+        }
+    };
+    let mut exacts: Vec<Val> = vec![];
+    for k in [24u32, 31, 32, 52, 53, 54, 62, 63, 64, 100] {
+        for d in [-3i64, -2, -1, 0, 1, 2, 3] {
+            exacts.push(Val::Int(pow2(k) + d));
+            exacts.push(Val::Int(-pow2(k) + d));
+        }
+    }
+    for d in [1i64, 3, 5, 1023, (1 << 52) + 1, (1 << 53) - 1] {
+        exacts.push(Val::Int(pow2(53) + d)); // odd values between 2^53 and 2^54
+    }
+    for (a, b) in [(1i64, 2i64), (1, 3), (-1, 3), (2, 3), ((1 << 31) - 1, 1 << 30), (1, (1 << 31) - 1), (0, 1), (1, 1), (-1, 1)] {
+        exacts.push(rat(a, b));
+    }
+    let ops = ["=", "<", ">", "<=", ">="];
+    for e in exacts.iter() {
+        let d0 = approx_double(e).to_bits();
+        for d in [d0, next_up(d0), next_down(d0)] {
+            if f64::from_bits(d).is_nan() {
+                continue;
+            }
+            for op in ops {
+                push(&mut out, rng, op, vec![e.clone(), Val::Flo(d)], 4);
+                push(&mut out, rng, op, vec![Val::Flo(d), e.clone()], 4);
+            }
+        }
+    }
+    // small integers: every ordered pair in every combination of representations
+    let small: Vec<Val> = [-5i64, -1, 0, 1, 3, 5].iter().map(|i| Val::Int(BigInt::from(*i))).collect();
+    for a in small.iter() {
+        for b in small.iter() {
+            for op in ops {
+                push(&mut out, rng, op, vec![a.clone(), b.clone()], 9);
+            }
+            for op in ["min", "max"] {
+                push(&mut out, rng, op, vec![a.clone(), b.clone()], 9);
+            }
+        }
+    }
+    // sign predicates and one-argument comparisons
+    let mut ones: Vec<Val> = small.clone();
+    for b in [0u64, 1 << 63, 1, (1 << 63) | 1, 0x0010000000000000, 0x8010000000000000, 0x3c80000000000000, 0xbc80000000000000,
+              0x3ff0000000000000, 0xbff0000000000000, 0x7ff0000000000000, 0xfff0000000000000, 0x7fefffffffffffff] {
+        ones.push(Val::Flo(b));
+    }
+    ones.push(rat(1, 3));
+    ones.push(rat(-1, 3));
+    ones.push(Val::Int(pow2(64)));
+    ones.push(Val::Int(-pow2(64)));
+    for a in ones.iter() {
+        for op in ["zero?", "positive?", "negative?"] {
+            push(&mut out, rng, op, vec![a.clone()], 4);
+        }
+    }
+    out
+}
+
 const NICE_DOUBLES: [f64; 24] = [
     0.1, 0.2, 0.3, 1.5, -2.5, 3.14159, 100.0, 1e10, 1.0e10 + 1.0, 1e11, 1.5e11, 1e21, 1e22, 1e23, 123456.789, 1e-7, 1.5e-10,
     6.02214076e23, 1.7976931348623157e308, 2.2250738585072014e-308, 5e-324, 4.9406564584124654e-320, -1e15, 9007199254740993.0,
@@ -989,6 +1129,27 @@ pub fn main(args: &[String]) -> Result<(), String> {
             let mut pending: Vec<Group> = vec![];
             let mut nruns = 0;
             let mut id = 0;
+            // grid=<stride>: the deterministic grid of the class first (every stride-th entry, offset = seed)
+            let stride: usize = get(&m, "grid", 0);
+            if stride > 0 {
+                let gr = match cls.as_str() {
+                    "c08" => grid_c08(&mut rng, stride, seed as usize),
+                    "c09" => grid_c09(&mut rng, stride, seed as usize),
+                    _ => vec![],
+                };
+                let mut ngrid = 0;
+                for g in gr {
+                    id += 1;
+                    let j = run_group(&mut ev, id, &g);
+                    if j["runs"].as_array().map(|a| a.len()).unwrap_or(0) == 0 {
+                        id -= 1;
+                        continue;
+                    }
+                    ngrid += 1;
+                    writeln!(f, "{}", j).map_err(|e| e.to_string())?;
+                }
+                eprintln!("numtower grid {}: {} groups", cls, ngrid);
+            }
             while nruns < count {
                 let g = match cls.as_str() {
                     "c08" => gen_c08(&mut rng),
